@@ -110,8 +110,8 @@ def run(chk, only=None):
     pr = vlib.proof_step(chk, PROP_FILE, "From SeataV Require Import Props.P_C14.")
     conf = write_conf(chk)
     vlib.build_harness()
-    jobs = [("seq", dict(mode="seq", seed=chk.seed, nseq=70 if quick else 2500, nconc=8 if quick else 120, maxperm=3 if quick else 5))]
-    nb = 1 if quick else 6
+    jobs = [("seq", dict(mode="seq", seed=chk.seed, nseq=70 if quick else 10000, nconc=8 if quick else 400, maxperm=3 if quick else 5))]
+    nb = 1 if quick else 12
     for i in range(nb):
         jobs.append(("batch%d" % i, dict(mode="batch", seed=chk.seed * 1000 + i, nbatch=24 if quick else 80)))
 
